@@ -127,7 +127,7 @@ func shistory(t *stoks) (res string) {
 	for i := range clusters {
 		clusters[i] = t.i64()
 	}
-	mode := t.next() // deny | allow | both
+	mode := t.next() // deny | allow | both | wide
 	nrej := int(t.i64())
 	rej := map[int64]bool{}
 	for i := 0; i < nrej; i++ {
@@ -152,6 +152,14 @@ func shistory(t *stoks) (res string) {
 	}
 	if mode == "allow" || mode == "both" {
 		viper.Set("storage.test.group-allowlist", "^("+strings.Join(allowed, "|")+")$")
+	}
+	if mode == "wide" {
+		// allowlist matches every generated name (incl. the empty one); exactly the rej ids are denied, so a rejected
+		// name is matched by BOTH lists (C10-storage)
+		viper.Set("storage.test.group-allowlist", "^(g[0-9]+)?$")
+		if len(denied) > 0 {
+			viper.Set("storage.test.group-denylist", "^("+strings.Join(denied, "|")+")$")
+		}
 	}
 	for _, c := range clusters {
 		viper.Set("cluster."+sname("k", c)+".class-name", "kafka")
